@@ -672,3 +672,74 @@ def lengths_reaching(b, vec, site):
             if not b.blocks[nx].get('cleanup'):
                 work.append((nx, ln))
     return out
+
+
+# ---------------------------------------------------------------- inlining of straight-line local calls in terms
+def upvar_index(cb):
+    """{captured name: position} of a closure body, from the field projections on its environment parameter."""
+    idx = {}
+
+    def walk(x):
+        if isinstance(x, dict):
+            if x.get('local') == 1 and isinstance(x.get('proj'), list):
+                for e in x['proj']:
+                    if e.get('k') == 'field':
+                        idx.setdefault(e['name'], e['i'])
+                        break
+            for v in x.values():
+                if isinstance(v, (dict, list)):
+                    walk(v)
+        elif isinstance(x, list):
+            for v in x:
+                walk(v)
+    walk(cb.raw.get('blocks', []))
+    return idx
+
+
+def subst_closure(cb, t, caps, args):
+    """closure return term with its parameters replaced by the call's arguments and its captures by the captured values"""
+    up = upvar_index(cb)
+
+    def f(x):
+        if not isinstance(x, tuple):
+            return x
+        if x[0] == 'param' and x[1] >= 2 and x[1] - 2 < len(args):
+            return args[x[1] - 2]
+        if x[0] == 'fld' and is_param(x[1], 1) and x[2] in up and up[x[2]] < len(caps):
+            return caps[up[x[2]]]
+        return (x[0],) + tuple(f(y) if isinstance(y, tuple) else y for y in x[1:])
+    return f(t)
+
+
+def subst_params(t, args):
+    def f(x):
+        if not isinstance(x, tuple):
+            return x
+        if x[0] in ('param', 'mparam') and x[1] - 1 < len(args):
+            return args[x[1] - 1]
+        return (x[0],) + tuple(f(y) if isinstance(y, tuple) else y for y in x[1:])
+    return f(t)
+
+
+
+
+def inline_calls(prog, t, depth=2):
+    """Replace calls of crate-local functions and closures that have a single return value by that value, parameters and
+    captures substituted (so that `close(a1, a2, b1, b2)` reads as the comparison it computes)."""
+    def f(x, d):
+        if not isinstance(x, tuple):
+            return x
+        x = (x[0],) + tuple(f(y, d) if isinstance(y, tuple) else y for y in x[1:])
+        if x[0] == 'call' and x[1] in prog.bodies and d > 0:
+            cb = prog.bodies[x[1]]
+            rv = cb.return_values()
+            if len(rv) == 1:
+                if cb.kind == 'Closure':
+                    env = strip(x[2]) if len(x) > 2 else None
+                    args = strip(x[3]) if len(x) > 3 else None
+                    if isinstance(env, tuple) and env[0] == 'agg' and isinstance(args, tuple) and args[0] == 'agg':
+                        return f(subst_closure(cb, rv[0][0], env[2:], args[2:]), d - 1)
+                else:
+                    return f(subst_params(rv[0][0], x[2:]), d - 1)
+        return x
+    return f(t, depth)
